@@ -32,6 +32,12 @@ def classify(f, du, dest):
                 n = t.get("callee") or ""
                 if n.endswith("Try::branch"):
                     tags.add("propagated")
+                elif re.search(r"Result::<T, E>::(and|and_then|map|map_err|inspect_err)$", n) and t["args"][0].get("pl", {}).get("l") == dest and not t["dest"]["p"]:
+                    # error-preserving combinators: the obligation moves to their result
+                    sub = {"returned"} if t["dest"]["l"] == 0 else classify(f, du, t["dest"]["l"])
+                    tags |= sub
+                elif re.search(r"Result::<T, E>::(or|or_else)$", n):
+                    tags.add("discarded:" + n.rsplit("::", 1)[-1])
                 elif re.search(r"Result::<T, E>::(ok|is_ok|is_err|unwrap_or|unwrap_or_default|unwrap_or_else|err)$", n):
                     tags.add("discarded:" + n.rsplit("::", 1)[-1])
                 elif re.search(r"Result::<T, E>::(unwrap|expect)$", n):
